@@ -9,6 +9,7 @@ import (
 	"runtime"
 	"sort"
 	"strings"
+	"sync"
 	"time"
 
 	"k8s.io/apimachinery/pkg/api/meta"
@@ -22,6 +23,8 @@ import (
 	"sigs.k8s.io/cli-utils/pkg/apply/event"
 	"sigs.k8s.io/cli-utils/pkg/common"
 	"sigs.k8s.io/cli-utils/pkg/inventory"
+	pollevent "sigs.k8s.io/cli-utils/pkg/kstatus/polling/event"
+	"sigs.k8s.io/cli-utils/pkg/kstatus/watcher"
 	"sigs.k8s.io/cli-utils/pkg/object"
 	"sigs.k8s.io/cli-utils/pkg/object/validation"
 )
@@ -49,9 +52,102 @@ func (f *factory) ToRESTMapper() (meta.RESTMapper, error) { return f.mapper, nil
 // part of the test mapper.
 func withCRDKind(base meta.RESTMapper) meta.RESTMapper {
 	gvk := kindByName("CustomResourceDefinition").GVK
-	m := meta.NewDefaultRESTMapper([]schema.GroupVersion{gvk.GroupVersion()})
+	ob := kindByResource("obars")
+	m := meta.NewDefaultRESTMapper([]schema.GroupVersion{gvk.GroupVersion(), ob.GVK.GroupVersion()})
 	m.Add(gvk, meta.RESTScopeRoot)
+	m.AddSpecific(ob.GVK, ob.GVR(), ob.GVK.GroupVersion().WithResource("obar"), meta.RESTScopeNamespace)
 	return meta.FirstHitRESTMapper{MultiRESTMapper: meta.MultiRESTMapper{base, m}}
+}
+
+// Session owns what outlives a single run when one Applier / Destroyer object is
+// reused for several runs of a history: the kubectl test factory, the REST and
+// dynamic clients (which forward to the server of the current run), the
+// inventory clients and the Applier / Destroyer objects (one per inventory
+// status policy, which is fixed when the inventory client is built).
+type Session struct {
+	mu         sync.Mutex
+	srv        *Server
+	w          *scriptedWatcher
+	tf         *cmdtesting.TestFactory
+	f          *factory
+	appliers   map[bool]*apply.Applier
+	destroyers map[bool]*apply.Destroyer
+}
+
+func NewSession() (*Session, error) {
+	s := &Session{appliers: map[bool]*apply.Applier{}, destroyers: map[bool]*apply.Destroyer{}}
+	s.tf = cmdtesting.NewTestFactory().WithNamespace(invNS)
+	s.tf.UnstructuredClient = &fake.RESTClient{
+		NegotiatedSerializer: resource.UnstructuredPlusDefaultContentConfig().NegotiatedSerializer,
+		Client:               fake.CreateHTTPClient(func(req *http.Request) (*http.Response, error) { return s.server().ServeREST(req) }),
+	}
+	base, err := s.tf.ToRESTMapper()
+	if err != nil {
+		s.tf.Cleanup()
+		return nil, fmt.Errorf("rest mapper: %w", err)
+	}
+	s.f = &factory{TestFactory: s.tf, dc: &dynClient{get: s.server}, mapper: withCRDKind(base)}
+	return s, nil
+}
+
+func (s *Session) Close() { s.tf.Cleanup() }
+
+func (s *Session) bind(srv *Server, w *scriptedWatcher) {
+	s.mu.Lock()
+	s.srv, s.w = srv, w
+	s.mu.Unlock()
+}
+
+func (s *Session) server() *Server {
+	s.mu.Lock()
+	defer s.mu.Unlock()
+	return s.srv
+}
+
+// Watch: the StatusWatcher handed to the builders; every run brings its own script.
+func (s *Session) Watch(ctx context.Context, ids object.ObjMetadataSet, o watcher.Options) <-chan pollevent.Event {
+	s.mu.Lock()
+	w := s.w
+	s.mu.Unlock()
+	return w.Watch(ctx, ids, o)
+}
+
+func (s *Session) invClient(all bool) (inventory.Client, error) {
+	sp := inventory.StatusPolicyNone
+	if all {
+		sp = inventory.StatusPolicyAll
+	}
+	return inventory.ClusterClientFactory{StatusPolicy: sp}.NewClient(s.f)
+}
+
+func (s *Session) applier(all bool) (*apply.Applier, error) {
+	if a := s.appliers[all]; a != nil {
+		return a, nil
+	}
+	ic, err := s.invClient(all)
+	if err != nil {
+		return nil, err
+	}
+	a, err := apply.NewApplierBuilder().WithFactory(s.f).WithInventoryClient(ic).WithStatusWatcher(s).Build()
+	if err == nil {
+		s.appliers[all] = a
+	}
+	return a, err
+}
+
+func (s *Session) destroyer(all bool) (*apply.Destroyer, error) {
+	if d := s.destroyers[all]; d != nil {
+		return d, nil
+	}
+	ic, err := s.invClient(all)
+	if err != nil {
+		return nil, err
+	}
+	d, err := apply.NewDestroyerBuilder().WithFactory(s.f).WithInventoryClient(ic).WithStatusWatcher(s).Build()
+	if err == nil {
+		s.destroyers[all] = d
+	}
+	return d, err
 }
 
 // RunResult is what one run produced.
@@ -107,7 +203,11 @@ func timeoutOf(b bool) time.Duration {
 }
 
 // ExecRun executes one scenario against the store (which it mutates).
-func ExecRun(st *Store, sc Scenario) RunResult { return execRun(st, sc, false) }
+func ExecRun(st *Store, sc Scenario) RunResult { return execRun(st, sc, false, nil) }
+
+// ExecRunIn executes the scenario with the Applier / Destroyer objects of the
+// session (which have served the earlier runs of the history).
+func ExecRunIn(sess *Session, st *Store, sc Scenario) RunResult { return execRun(st, sc, false, sess) }
 
 // Probe executes the scenario's objects and options against a copy of the
 // store with no faults, no cancellation and a watcher that reconciles every
@@ -122,10 +222,10 @@ func Probe(st *Store, sc Scenario) RunResult {
 			sc.Opts.PruneTimeout = true
 		}
 	}
-	return execRun(st.Clone(), sc, true)
+	return execRun(st.Clone(), sc, true, nil)
 }
 
-func execRun(st *Store, sc Scenario, auto bool) (res RunResult) {
+func execRun(st *Store, sc Scenario, auto bool, sess *Session) (res RunResult) {
 	clock := &Clock{}
 	bd := newBoard()
 	ctx, cancel := context.WithCancel(context.Background())
@@ -136,31 +236,18 @@ func execRun(st *Store, sc Scenario, auto bool) (res RunResult) {
 	srv := NewServer(st, clock, sc.Env)
 	srv.cancelFn = cancel
 
-	tf := cmdtesting.NewTestFactory().WithNamespace(invNS)
-	defer tf.Cleanup()
-	tf.UnstructuredClient = &fake.RESTClient{
-		NegotiatedSerializer: resource.UnstructuredPlusDefaultContentConfig().NegotiatedSerializer,
-		Client:               fake.CreateHTTPClient(func(req *http.Request) (*http.Response, error) { return srv.ServeREST(req) }),
-	}
-	base, err := tf.ToRESTMapper()
-	if err != nil {
-		res.Failures = append(res.Failures, "harness: rest mapper: "+err.Error())
-		res.Out.Final = st.Observe()
-		return res
-	}
-	f := &factory{TestFactory: tf, dc: &dynClient{s: srv}, mapper: withCRDKind(base)}
-	sp := inventory.StatusPolicyNone
-	if sc.Opts.StatusPolicyAll {
-		sp = inventory.StatusPolicyAll
-	}
 	fail := func(format string, a ...interface{}) RunResult {
 		res.Failures = append(res.Failures, fmt.Sprintf(format, a...))
 		res.Out.Final = st.Observe()
 		return res
 	}
-	invClient, err := inventory.ClusterClientFactory{StatusPolicy: sp}.NewClient(f)
-	if err != nil {
-		return fail("harness: inventory client: %v", err)
+	if sess == nil {
+		// a fresh factory, inventory client, Applier and Destroyer for this run only
+		var err error
+		if sess, err = NewSession(); err != nil {
+			return fail("harness: %v", err)
+		}
+		defer sess.Close()
 	}
 	w := &scriptedWatcher{univ: sc.Univ, env: sc.Env, clock: clock, board: bd, cancel: cancel}
 	cons := newConsumer(sc.Univ, clock, bd, sc.Opts.Destroy)
@@ -174,11 +261,12 @@ func execRun(st *Store, sc Scenario, auto bool) (res RunResult) {
 	srv.barrier = cons.barrier
 	srv.afterCancel = w.afterCancel
 	w.syncConsumer = cons.barrier
+	sess.bind(srv, w)
 	invInfo := inventory.WrapInventoryInfoObj(InventoryObject(sc.Univ, nil, false))
 
 	var ch <-chan event.Event
 	if sc.Opts.Destroy {
-		d, err := apply.NewDestroyerBuilder().WithFactory(f).WithInventoryClient(invClient).WithStatusWatcher(w).Build()
+		d, err := sess.destroyer(sc.Opts.StatusPolicyAll)
 		if err != nil {
 			return fail("harness: destroyer: %v", err)
 		}
@@ -191,7 +279,7 @@ func execRun(st *Store, sc Scenario, auto bool) (res RunResult) {
 			ValidationPolicy:        valOf(sc.Opts.ValPol),
 		})
 	} else {
-		a, err := apply.NewApplierBuilder().WithFactory(f).WithInventoryClient(invClient).WithStatusWatcher(w).Build()
+		a, err := sess.applier(sc.Opts.StatusPolicyAll)
 		if err != nil {
 			return fail("harness: applier: %v", err)
 		}
